@@ -103,5 +103,25 @@ def run_and_check(p: dict[str, Any], wd: Path) -> dict[str, Any]:
 
     if res.ok and files:
         outcheck.check_outputs(snaps, files, conf["output"], V, cnt, ref, xy2ll=xy2ll if p.get("lonlat") else None)
+    # --- optional: a warm start from the first completed file, observed by the same call-boundary monitor
+    if p.get("warm") and res.ok and len(files) >= 2 and files[0].layout == "sparse" and not V and len(files[0].records) and len(files[0].records[-1].pid):
+        snaps2: list[dict[str, Any]] = []
+        run2 = dict(scn["run"])
+        pv = list(scn["run"]["state"]["particle_variables"])
+        run2["warm_start"] = dict(filename=str(files[0].path), variables=pv + list(scn["run"]["state"]["instance_variables"]))
+        run2["output"] = dict(scn["run"]["output"], filename="warm.nc", numrec=0)
+        with Hooks() as hk:
+            outcheck.snapshot_hook(hk, snaps2)
+            res2, conf2, _w = run_scenario(dict(world=None, run=run2), wd, conf_name="warm.yaml", world=world)
+        cnt["warm_runs"] = 1
+        if not res2.ok:
+            V.append(C.viol(f"warm start from {files[0].path.name} did not complete: {res2.exc}", tb=res2.tb[-1200:]))
+        else:
+            files2 = read_outputs(res2.outputs)
+            ref2 = p.get("reference") or min(str(files[0].records[-1].time), scn["run"]["stop"])
+            n0 = len(V)
+            outcheck.check_outputs(snaps2, files2, conf2["output"], V, cnt, ref2, xy2ll=xy2ll if p.get("lonlat") else None)
+            for v_ in V[n0:]:
+                v_["what"] = "warm-started run: " + v_["what"]
     _ = G
     return dict(res=res, snaps=snaps, files=files, V=V, cnt=cnt, conf=conf, still_open=len(still_open), scn=scn)
